@@ -284,6 +284,24 @@ def run(ctx, res):
         else:
             res.fail("C05 injection: tree read back has different components/properties/parameters than intended",
                      [slot, s], observed=got, expected=intended)
+    # ---- what parts() returns belongs to the caller: editing it in place does not change what the same line splits into later
+    for ptxt in ["MEMBER=a,b", 'MEMBER="mailto:a@x","mailto:b@x";ROLE=r', "X-L=1,2,3;X-S=one", 'DELEGATED-TO="a,b",c;CN=x']:
+        line = "ATTENDEE;" + ptxt + ":mailto:z@x"
+        first = Contentline(line).parts()
+        want = [first[0], obs_params(first[1]), str(first[2])]
+        for v in list(first[1].values()):
+            if isinstance(v, list):
+                v.append("zz")
+                v.reverse()
+        first[1]["X-ADDED"] = "1"
+        res.evaluations += 1
+        again = Contentline(line).parts()
+        got = [again[0], obs_params(again[1]), str(again[2])]
+        ev = icalendar.Event.from_ical("BEGIN:VEVENT\r\n" + line + "\r\nEND:VEVENT\r\n")
+        got_c = obs_params(ev["ATTENDEE"].params)
+        if got != want or got_c != want[1]:
+            res.fail("C05 join/split: the same content line splits into other parts after the caller edited an earlier result "
+                     "in place", line, observed=[got, got_c], expected=want)
     res.sample({"A": casesA[0], "line": rows[0]["line"], "parts": rows[0]["parts"]})
     res.sample({"B-slot": "url", "string": "END:VEVENT", "note": "spliced into 7 slots; structure of parse(to_ical) compared with the intended one"})
 
